@@ -1,14 +1,154 @@
 package main
 
 import (
+	"flag"
 	"fmt"
-	"golang.org/x/tools/go/packages"
-	"golang.org/x/tools/go/ssa"
-	"golang.org/x/tools/go/ssa/ssautil"
+	"os"
+	"path/filepath"
+	"runtime"
+	"sort"
+	"strings"
+	"time"
 )
 
-var _ = packages.Load
-var _ ssa.Value
-var _ = ssautil.AllPackages
+var verifDir = "/verif"
+var repoDir = "/repo"
 
-func main() { fmt.Println("govc") }
+func main() {
+	if len(os.Args) < 2 {
+		fmt.Fprintln(os.Stderr, "usage: govc verify|check|replay|selftest ...")
+		os.Exit(2)
+	}
+	if d := os.Getenv("GOVC_VERIF"); d != "" {
+		verifDir = d
+	}
+	if d := os.Getenv("GOVC_REPO"); d != "" {
+		repoDir = d
+	}
+	defer cleanupScratch()
+	switch os.Args[1] {
+	case "verify":
+		cmdVerify(os.Args[2:])
+	case "check":
+		os.Exit(cmdCheck(os.Args[2:]))
+	case "gen":
+		cmdGen(os.Args[2:])
+	default:
+		fmt.Fprintln(os.Stderr, "unknown command", os.Args[1])
+		os.Exit(2)
+	}
+}
+
+// cmdGen prints the generated overlay of a package (debugging).
+func cmdGen(args []string) {
+	for _, rel := range args {
+		pc, files, _, err := loadPkgContracts(repoDir, rel, relToImport(rel))
+		if err != nil {
+			fmt.Println("error:", err)
+			continue
+		}
+		txt, err := genOverlay(pc, files, filepath.Join(verifDir, "spec"))
+		if err != nil {
+			fmt.Println("error:", err)
+		}
+		fmt.Println(txt)
+	}
+}
+
+// cmdVerify: development entry point.  govc verify -pkgs pkg/x25,pkg/frame 'pkg/x25:(*X25).Write' ...
+func cmdVerify(args []string) {
+	fs := flag.NewFlagSet("verify", flag.ExitOnError)
+	pkgs := fs.String("pkgs", "", "comma separated package dirs relative to the repo")
+	timeout := fs.Int("t", 10, "solver timeout (s)")
+	verbose := fs.Bool("v", false, "verbose")
+	keep := fs.String("keep", "", "directory for failed queries")
+	all := fs.Bool("all", false, "wait for all solvers")
+	fs.Parse(args)
+	rels := strings.Split(*pkgs, ",")
+	t0 := time.Now()
+	ld, err := load(repoDir, rels, filepath.Join(verifDir, "spec"))
+	if err != nil {
+		fmt.Println("LOAD ERROR:", err)
+		os.Exit(1)
+	}
+	for _, b := range ld.bindErrors {
+		fmt.Println("BIND:", b)
+	}
+	fmt.Printf("loaded in %.1fs\n", time.Since(t0).Seconds())
+	var obls []*Obligation
+	targets := fs.Args()
+	if len(targets) == 0 {
+		for _, rel := range rels {
+			for _, fc := range ld.pcs[rel].Funcs {
+				targets = append(targets, rel+":"+fc.QualName)
+			}
+		}
+	}
+	for _, t := range targets {
+		i := strings.Index(t, ":")
+		rel, qual := t[:i], t[i+1:]
+		sp := ld.eng.pkgs[relToImport(rel)]
+		fn := findFunc(ld.eng.prog, sp, qual)
+		if fn == nil {
+			fmt.Println("no such function:", t)
+			continue
+		}
+		fc := ld.eng.contracts[fn]
+		if fc == nil {
+			fc = &FuncContract{QualName: qual, Loops: map[int]*LoopContract{}}
+			for _, p := range fn.Params {
+				fc.ParamNames = append(fc.ParamNames, p.Name())
+			}
+		}
+		t1 := time.Now()
+		rep := ld.eng.verifyFunc(fn, fc)
+		fmt.Printf("== %s: %d instrs, %d paths (%d completed), %d obligations, %.2fs\n", rep.Name, rep.Instrs, rep.Paths, rep.Completed, len(rep.Obligations), time.Since(t1).Seconds())
+		for _, u := range rep.Unsupported {
+			fmt.Println("   UNSUPPORTED:", u)
+		}
+		for _, u := range rep.Unmodelled {
+			fmt.Println("   unmodelled call:", u)
+		}
+		for _, u := range rep.Notes {
+			fmt.Println("   note:", u)
+		}
+		obls = append(obls, rep.Obligations...)
+	}
+	t2 := time.Now()
+	vs := discharge(obls, dischargeOpts{timeoutS: *timeout, all: *all, workers: runtime.NumCPU()})
+	fmt.Printf("solved %d distinct queries (from %d obligations) in %.1fs\n", len(vs), len(obls), time.Since(t2).Seconds())
+	sums := summarize(vs)
+	nd, nf, nu := 0, 0, 0
+	for _, ns := range sums {
+		status := "ok"
+		if len(ns.Failed) > 0 {
+			status = "FAILED"
+			nf++
+		} else if len(ns.Unknown) > 0 {
+			status = "UNKNOWN"
+			nu++
+		} else {
+			nd++
+		}
+		if *verbose || status != "ok" {
+			var sv []string
+			for k, n := range ns.Solvers {
+				sv = append(sv, fmt.Sprintf("%s:%d", k, n))
+			}
+			sort.Strings(sv)
+			fmt.Printf("  %-8s %-70s %d/%d  %.2fs %s\n", status, ns.Name, ns.Discharged, ns.Total, ns.Time, strings.Join(sv, ","))
+			for _, v := range append(ns.Failed, ns.Unknown...) {
+				fmt.Printf("      path=%s status=%s solver=%s %s\n", v.O.Path, v.Result.Status, v.Result.Solver, firstLine(v.Result.Output))
+				if *keep != "" {
+					fmt.Println("      query:", saveQuery(*keep, v))
+				}
+			}
+		}
+	}
+	fmt.Printf("names: %d ok, %d failed, %d unknown\n", nd, nf, nu)
+}
+
+func cmdCheck(args []string) int {
+	fmt.Println("check: not built yet")
+	return 2
+}
